@@ -488,9 +488,22 @@ def pred_grid(c):
     return f'unknown grid kind {kind}'
 
 
-PREDS = {'ffs': pred_pure, 'ufs': pred_pure, 'fft_focus': pred_pure, 'fft_unfocus': pred_pure, 'conv': pred_conv, 'spot_fixed': pred_spot_fixed, 'spot_fft': pred_spot_fft, 'phys_fixed': pred_phys_fixed,
+def pred_tilt(c):
+    """the pupil `Wavefront.from_amp_and_phase` builds from an OPD of k waves across the aperture is the tilt
+    exp(2 pi i (kx (i - n//2)/n + ky (j - m//2)/m))"""
+    pr, _ = _impl()
+    m, n = c['m'], c['n']
+    wf = tilted_pupil(pr, m, n, c['dx'], c['lam'], c['ky'], c['kx'])
+    ref = np.exp(2j * np.pi * (np.outer(c['ky'] * _cen(m) / m, np.ones(n)) + np.outer(np.ones(m), c['kx'] * _cen(n) / n)))
+    err = _relerr(wf.data, ref)
+    if err > TOL:
+        return f'from_amp_and_phase pupil is not the ({c["kx"]},{c["ky"]})-wave tilt (rel. err {err:.3g})'
+    return None
+
+
+PREDS = {'phys_vs_model': pred_phys_fixed, 'ffs': pred_pure, 'ufs': pred_pure, 'fft_focus': pred_pure, 'fft_unfocus': pred_pure, 'conv': pred_conv, 'spot_fixed': pred_spot_fixed, 'spot_fft': pred_spot_fft, 'phys_fixed': pred_phys_fixed,
          'shift_fixed': pred_shift_fixed, 'tilt_unfocus_fixed': pred_tilt_unfocus_fixed,
-         'tilt_unfocus_fft': pred_tilt_unfocus_fft, 'chain': pred_chain, 'grid': pred_grid}
+         'tilt_unfocus_fft': pred_tilt_unfocus_fft, 'chain': pred_chain, 'grid': pred_grid, 'tilt_vs_model': pred_tilt}
 
 
 def is_known(item, c):
@@ -723,6 +736,34 @@ def correspondence(ctx):
         nums = [C.f2w(v) for v in (c['dx'], c['efl'], c['lam'], c['dxo'], sx, sy)]
         lines.append(' '.join(head + nums + _wire_field(L.as_complex(f))))
         meta.append(('fspt', (c, f, sx, sy, k, l)))
+    # the physical integral Model.C03.F2 and the tilt Model.C03.tilt THEMSELVES (the subjects of the spot / tilt theorems), against
+    # the real code at the coordinates the real code reports
+    for i in range(ctx.scale(40, 150)):
+        c = gen_fixed(rng, min(hi, 10), i, 'fwd' if i % 2 else 'inv', lo=1)
+        c['api'], c['sform'], c['hform'] = 'wrapper', 'tuple', 'tuple'
+        f = L.case_field(c)
+        sx, sy = L.eff_shift(c, c['dxo'])
+        fwd = c['dir'] == 'fwd'
+        try:
+            wf = pr.Wavefront(f, c['lam'], c['dx'], 'pupil' if fwd else 'psf')
+            out = (wf.focus_fixed_sampling if fwd else wf.unfocus_fixed_sampling)(c['efl'], c['dxo'], (c['M'], c['N']),
+                                                                                  shift=(sx, sy), method=c['method'])
+            I = out.intensity
+            k, l = int(rng.integers(c['M'])), int(rng.integers(c['N']))
+            eta, xi = float(I.y[k, 0]) - sy, float(I.x[0, l]) - sx
+            val = complex(out.data[k, l])
+        except Exception as ex:
+            ctx.case('phys_vs_model', c, nontrivial=c['m'] * c['n'] > 1, tag='raised')
+            ctx.disagree('phys_vs_model', c, f'raised {type(ex).__name__}: {ex}', 'model returns a value')
+            continue
+        lines.append(' '.join(['F2', c['dir'], str(c['m']), str(c['n'])] + [C.f2w(v) for v in (c['dx'], c['lam'], c['efl'], eta, xi)]
+                              + _wire_field(L.as_complex(f))))
+        meta.append(('F2', (c, k, l, val, float(np.abs(out.data).max()))))
+    for i in range(ctx.scale(30, 100)):
+        c = gen_spot_fixed(rng, hi, i)
+        for ax, (size, kk) in enumerate(((c['m'], c['ky']), (c['n'], c['kx']))):
+            lines.append(f"tilt {size} {C.f2w(float(kk))}")
+            meta.append(('tilt', (c, ax)))
     replies = C.lean_driver('C03', lines)
 
     # ---------------- compare
@@ -780,6 +821,33 @@ def correspondence(ctx):
             if err > L.tol_of(c, TOL):
                 k, l = np.unravel_index(np.argmax(np.abs(a - b)), out.shape)
                 ctx.disagree(item, c, f'out[{k},{l}]={complex(out[k, l]):.6g}', f'{complex(mod[k, l]):.6g} (rel. err {err:.3g})')
+            continue
+        if kind == 'F2':
+            c, k, l, val, scale = dat
+            ctx.case('phys_vs_model', dict(c, point=[k, l]), nontrivial=c['m'] * c['n'] > 1,
+                     tag=f"{c['dir']}/{c['method']}/{'shift' if any(c['shift']) else 'noshift'}/{'sq' if c['m'] == c['n'] else 'nonsq'}")
+            re, im = rep.split()
+            mod = (c['dx'] * c['dxo'] / (c['lam'] * c['efl'])) * (C.w2f(re) + 1j * C.w2f(im))
+            d = abs(val - mod) if not any(c['shift']) else abs(abs(val) - abs(mod))
+            if d > TOL * max(1.0, scale):
+                ctx.disagree('phys_vs_model', c, f'out[{k},{l}] = {val:.6g}', f'norm * Model.C03.F2 at the reported coordinates = {mod:.6g}')
+            continue
+        if kind == 'tilt':
+            c, ax = dat
+            size = c['m'] if ax == 0 else c['n']
+            case = {'m': c['m'], 'n': c['n'], 'dx': c['dx'], 'lam': c['lam'], 'ky': c['ky'], 'kx': c['kx']}
+            ctx.case('tilt_vs_model', dict(case, axis=ax), nontrivial=size > 1 and (c['ky'], c['kx'])[ax] != 0,
+                     tag=f"axis{ax}/{'frac' if (c['ky'], c['kx'])[ax] % 1 else 'int'}")
+            mod = _unwire_field(rep.split(), (size,)) if size else np.zeros(0)
+            try:
+                wf = tilted_pupil(pr, c['m'], c['n'], c['dx'], c['lam'], c['ky'], c['kx'])
+                # along the axis, through the origin sample of the other axis (where the other tilt's phase is zero)
+                got = wf.data[:, c['n'] // 2] if ax == 0 else wf.data[c['m'] // 2, :]
+            except Exception as ex:
+                ctx.disagree('tilt_vs_model', case, f'raised {type(ex).__name__}: {ex}', 'model returns a tilt')
+                continue
+            if got.shape != mod.shape or _relerr(got, mod) > TOL:
+                ctx.disagree('tilt_vs_model', case, 'pupil built by from_amp_and_phase', 'Model.C03.tilt', note=f'axis {ax}')
             continue
         if kind == 'fft':
             c, f, out = dat
@@ -995,7 +1063,7 @@ MANIFEST_ENTRY = {
              'spelling of sample counts and shifts, both methods and directions, purity of every call) and the property predicates '
              'on the real outputs (analytic pattern of a tilted aperture and direct physical integral at the REPORTED coordinates, '
              'complex at zero shift; brightest sample nearest to k lambda f/D; exact translation by shifts; spot -> tilt; dx, '
-             'wavelength, space and shape of every returned Wavefront; route chains returning the padded / original field and the original dx, FFT route == fixed-sampling route at the reported dx; coordinate grids sample by sample). PARTIAL: FFT-route y-coordinate claims are restricted to '
+             'wavelength, space and shape of every returned Wavefront; route chains returning the padded / original field and the original dx, FFT route == fixed-sampling route at the reported dx; coordinate grids sample by sample; the Lean definitions the spot / tilt theorems are ABOUT are executed too: Model.C03.F2 (physical integral) at the coordinates the real result reports against the real array element, Model.C03.tilt against the pupil Wavefront.from_amp_and_phase builds). PARTIAL: FFT-route y-coordinate claims are restricted to '
              'square padded arrays (known finding fft-nonsquare-dx); the phase of a SHIFTED single transform is left free (moduli '
              'compared), its consistency between the legs is C05; "brightest array sample" is checked, only the continuous '
              'maximum is proved.'),
